@@ -17,6 +17,7 @@ import (
 	"io"
 	"math/big"
 	"math/rand"
+	"net"
 	"net/http"
 	"net/url"
 	"sort"
@@ -125,6 +126,15 @@ func requests(std *svc.Std) []ReqSpec {
 	add(ReqSpec{Kind: "http", Verb: "GET", Path: "/v1/echo/xyz"})
 	add(ReqSpec{Kind: "http", Verb: "GET", Path: "/v1/echo/xyz/"})
 	add(ReqSpec{Kind: "http", Verb: "GET", Path: "/v1/unary/hello", Query: "n=5&sub.a=q"})
+	// semicolons in the query: whatever the mux makes of them, it makes the
+	// same of them below a mount
+	add(ReqSpec{Kind: "http", Verb: "GET", Path: "/v1/unary/hello", Query: "n=5;sub.a=q"})
+	add(ReqSpec{Kind: "http", Verb: "GET", Path: "/v1/unary/hello", Query: "sub.a=a;b&n=2"})
+	add(ReqSpec{Kind: "http", Verb: "GET", Path: "/v1/unary/hello", Query: "n=7;"})
+	add(ReqSpec{Kind: "http", Verb: "GET", Path: "/v1/unary/hello", Query: "sub.a=x%3By&n=1"})
+	add(ReqSpec{Kind: "http", Verb: "GET", Path: "/v1/unary/hello", Query: "n=5&&sub.a=q&"})
+	add(ReqSpec{Kind: "http", Verb: "GET", Path: "/v1/unary/hello", Query: "n=5&sub.a=%zz"})
+	add(ReqSpec{Kind: "http", Verb: "GET", Path: "/v1/unary/hello", Query: "n=5&sub.a=a+b%20c"})
 	add(ReqSpec{Kind: "http", Verb: "GET", Path: "/v1/items/it/42"})
 	add(ReqSpec{Kind: "http", Verb: "GET", Path: "/v1/items/it/notanumber"})
 	add(ReqSpec{Kind: "http", Verb: "PATCH", Path: "/v1/sub/k", Header: jh, Body: []byte(`{"a":"x","l":"7"}`)})
@@ -711,6 +721,13 @@ func socketLane(r *mon.Run, e *env) {
 		return
 	}
 	defer bare.Close()
+	plain, err := wire.StartH2C(e.bare, nil)
+	if err != nil {
+		r.Inconclusive("listener: " + err.Error())
+		plain = nil
+	} else {
+		defer plain.Close()
+	}
 	for _, pats := range [][]string{{"/api"}, {"/", "/twirp"}, {"/a", "/a/b"}} {
 		srv, err := wire.StartLarking(e.bare, nil, larking.MuxHandleOption(pats...))
 		if err != nil {
@@ -762,6 +779,32 @@ func socketLane(r *mon.Run, e *env) {
 				}
 			}
 		}
+		// raw HTTP/1.1 exchanges: the bytes on the wire (status line, header
+		// set, framing, what follows the header block), mounted vs the bare mux
+		// behind a plain h2c server
+		if plain != nil {
+			for _, p := range pats {
+				pre := strings.TrimSuffix(p, "/")
+				if best, ok := mountFor(pats, pre+"/v1/echo/xyz"); !ok || best != pre {
+					continue
+				}
+				for _, q := range rawRequests(e.std) {
+					m, errM := rawHTTP1(srv.Addr, q.verb, pre+q.target, q.ctype, q.body)
+					b, errB := rawHTTP1(plain.Addr, q.verb, q.target, q.ctype, q.body)
+					r.Eval(1)
+					r.Count("socket_raw_http1_pairs", 1)
+					if errM != nil || errB != nil {
+						r.Inconclusive(fmt.Sprintf("raw exchange: %v / %v", errM, errB))
+						continue
+					}
+					if m != b {
+						r.Violate("mounted-differs-from-bare:socket-raw-http1:"+q.verb, fmt.Sprintf("%s %s below %q: mounted %.300q vs bare %.300q", q.verb, q.target, pre, m, b), map[string]any{"patterns": pats, "prefix": pre, "verb": q.verb, "target": q.target})
+					} else {
+						r.Distinct(fmt.Sprintf("socket-raw/%s/depth%d/%s", q.verb, strings.Count(pre, "/"), strings.SplitN(strings.TrimPrefix(m, "HTTP/1.1 "), " ", 2)[0]))
+					}
+				}
+			}
+		}
 		if l := srv.ErrLog(); strings.Contains(l, "panic") {
 			r.Violate("socket:panic-serving", l, pats)
 		}
@@ -769,6 +812,66 @@ func socketLane(r *mon.Run, e *env) {
 		ccB.Close()
 		srv.Close()
 	}
+}
+
+type rawReq struct {
+	verb, target, ctype string
+	body                []byte
+}
+
+func rawRequests(std *svc.Std) []rawReq {
+	return []rawReq{
+		{verb: "GET", target: "/v1/echo/xyz"},
+		{verb: "HEAD", target: "/v1/echo/xyz"},
+		{verb: "HEAD", target: "/v1/unary/hello?n=5"},
+		{verb: "HEAD", target: "/v1/nothing/here"},
+		{verb: "HEAD", target: std.Full("Echo")},
+		{verb: "OPTIONS", target: "/v1/echo/xyz"},
+		{verb: "GET", target: "/v1/unary/hello?n=5;sub.a=q"},
+		{verb: "GET", target: "/v1/unary/hello?sub.a=a;b"},
+		{verb: "GET", target: "/v1/unary/hello?n=7;"},
+		{verb: "GET", target: "/v1/nothing/here"},
+		{verb: "POST", target: "/v1/echo", ctype: "application/json", body: chunkJSON("r")},
+		{verb: "POST", target: "/v1/echo", ctype: "application/json", body: chunkJSON("fail")},
+		{verb: "POST", target: "/v1/ss", ctype: "application/json", body: chunkJSON("s")},
+		{verb: "DELETE", target: "/v1/echo"},
+	}
+}
+
+// rawHTTP1 sends one HTTP/1.1 request with Connection: close and returns
+// everything the server wrote, minus the Date header line.
+func rawHTTP1(addr, verb, target, ctype string, body []byte) (string, error) {
+	conn, err := net.DialTimeout("tcp", addr, 5*time.Second)
+	if err != nil {
+		return "", err
+	}
+	defer conn.Close()
+	var sb strings.Builder
+	fmt.Fprintf(&sb, "%s %s HTTP/1.1\r\nHost: verif.test\r\nConnection: close\r\n", verb, target)
+	if ctype != "" {
+		fmt.Fprintf(&sb, "Content-Type: %s\r\n", ctype)
+	}
+	if body != nil {
+		fmt.Fprintf(&sb, "Content-Length: %d\r\n", len(body))
+	}
+	sb.WriteString("\r\n")
+	sb.Write(body)
+	conn.SetDeadline(time.Now().Add(15 * time.Second))
+	if _, err := conn.Write([]byte(sb.String())); err != nil {
+		return "", err
+	}
+	raw, err := io.ReadAll(conn)
+	if err != nil && len(raw) == 0 {
+		return "", err
+	}
+	var keep []string
+	head, rest, _ := strings.Cut(string(raw), "\r\n\r\n")
+	for _, l := range strings.Split(head, "\r\n") {
+		if !strings.HasPrefix(strings.ToLower(l), "date:") {
+			keep = append(keep, l)
+		}
+	}
+	return strings.Join(keep, "\r\n") + "\r\n\r\n" + rest, nil
 }
 
 // pacedLane: a bidi call whose client paces its messages over real h2c
